@@ -115,7 +115,7 @@ def mk_awk(system, rows, momentum=False, counts=None, spelling=0, extra=None, ro
         flavor = "Momentum" if momentum else "Vector"
         import vector.backends.awkward as vba
 
-        return ak.zip(cols, with_name=f"{flavor}{dim}D", behavior=vba.behavior)
+        return ak.zip(cols, with_name=f"{flavor}{dim}D", behavior=None if vector._awkward_registered else vba.behavior)
     raise ValueError(route)
 
 
